@@ -13,6 +13,26 @@ def P(src, variant, name, args=None, tiers=('quick', 'thorough'), tier_args=None
 
 
 CHECKS = {
+    'C11': {
+        'engine': 'numx',
+        'rule': 'format(17)/parse round trip on double and float lattices',
+        'parts': [
+            P('props/C11.cpp', 'fast', 'roundtrip-fast'),
+            P('props/C11.cpp', 'asan', 'roundtrip-asan', tier_args={'quick': ['--floatbits', '16', '--hibits', '16'],
+                                                                   'thorough': ['--floatbits', '22', '--hibits', '22']}),
+        ],
+        'floor': {'quick': 1000, 'thorough': 1000},
+    },
+    'C10': {
+        'engine': 'numx',
+        'rule': 'number formatting lattices vs printf',
+        'parts': [
+            P('props/C10.cpp', 'fast', 'lattice-fast'),
+            P('props/C10.cpp', 'asan', 'lattice-asan', tier_args={'quick': ['--patterns', '2', '--kmax', '20000', '--floatbits', '14', '--i32bits', '14'],
+                                                                 'thorough': ['--patterns', '8', '--kmax', '200000', '--floatbits', '20', '--i32bits', '20']}),
+        ],
+        'floor': {'quick': 10, 'thorough': 10},
+    },
     'C09': {
         'engine': 'numx',
         'rule': 'numeral lattices vs strtod',
